@@ -188,7 +188,19 @@ class TrackerFamily(Family):
         if prop == "C16":
             self.uses_gen = ("auditd.go",)
 
+    def modes_for(self, c):
+        if c.get("timed"):
+            return (["timed"], ["timed"])
+        return (self.harness_mode, self.driver_args)
+
+    def impl_obs_for(self, c, raw):
+        if c.get("timed") and 60 < c["timed"][0] <= 120:
+            return "C:*"
+        return raw
+
     def harness_line(self, c):
+        if c.get("timed"):
+            return "%s %d %d" % (c["id"], c["timed"][0], c["timed"][1])
         return "%s %s %s" % (c["id"], c["fail"], ";".join(c["ops"]))
 
     def driver_line(self, c, impl_obs):
@@ -198,12 +210,16 @@ class TrackerFamily(Family):
         return s
 
     def sample(self, c):
+        if c.get("timed"):
+            return {"real_time": True, "seconds_between_the_halves": c["timed"][0], "unrelated_login_every_s": c["timed"][1]}
         return {"fail_at_write": c["fail"], "ops": c["ops"]}
 
     def signature(self, c, rec):
         return "%s|%s" % (";".join(c["ops"]), rec.get("ispec"))
 
     def shrink_candidates(self, c):
+        if c.get("timed"):
+            return []
         ops = c["ops"]
         out = []
         for i in range(len(ops)):
@@ -213,6 +229,8 @@ class TrackerFamily(Family):
     def stats(self, cases, recs):
         d = {"ops": {}, "errors": {}, "ambiguous_skipped": 0, "with_write_fault": 0, "lengths": {}}
         for c in cases:
+            if c.get("timed"):
+                d["real_time_runs"] = d.get("real_time_runs", 0) + 1
             for op in c["ops"]:
                 d["ops"][op[0]] = d["ops"].get(op[0], 0) + 1
             b = min(len(c["ops"]) // 10 * 10, 100)
@@ -237,6 +255,10 @@ class TrackerFamily(Family):
                                      faults=p in ("C01", "C04", "C14", "C09")))
         for n in ([50, 1100, 2300] if quick else [50, 300, 1100, 2300, 4200, 9000]):
             cs.append(long_hold(rng, n))
+        if p == "C16" and not quick:
+            # the real processor with its real one-minute ticker, in real time (run concurrently: about 2.5 min)
+            for gap, noise in ((30, 0), (45, 20), (135, 0), (140, 40), (150, 55)):
+                cs.append({"fail": "-", "ops": [], "timed": (gap, noise)})
         return cs
 
     def extra_cases(self, rng, n):
